@@ -107,3 +107,31 @@ Proof.
   lia.
 Qed.
 End CPLemmas.
+
+Section IdentityKeysLemmas.
+Variables urn kval : Type.
+Variable urn_eqb : urn -> urn -> bool.
+Hypothesis urn_eqb_spec : forall a b, urn_eqb a b = true <-> a = b.
+Notation id_lookup := (id_lookup urn kval urn_eqb).
+Notation id_save := (id_save urn kval).
+
+Lemma id_lookup_snoc l u k u' :
+  id_lookup (l ++ [(u, k)]) u' = if urn_eqb u u' then Some k else id_lookup l u'.
+Proof. unfold ChangePassword.id_lookup. rewrite fold_left_app. cbn [fold_left fst snd]. reflexivity. Qed.
+
+(* the key saved last for a folder is the one found; other folders' keys are untouched *)
+Theorem id_save_found l u k : id_lookup (id_save l u k) u = Some k.
+Proof. unfold ChangePassword.id_save. rewrite id_lookup_snoc. assert (urn_eqb u u = true) as -> by (apply urn_eqb_spec; reflexivity). reflexivity. Qed.
+Theorem id_save_other l u k u' : u <> u' -> id_lookup (id_save l u k) u' = id_lookup l u'.
+Proof.
+  intro H. unfold ChangePassword.id_save. rewrite id_lookup_snoc.
+  destruct (urn_eqb u u') eqn:E; [apply urn_eqb_spec in E; contradiction|reflexivity].
+Qed.
+End IdentityKeysLemmas.
+
+(* keeping the first entry per URN instead of the sequence changes the lookup: the stale key wins *)
+Lemma dedupe_first_changes_lookup :
+  id_lookup nat nat Nat.eqb (id_save nat nat [(1, 10)] 1 11) 1 = Some 11 /\
+  id_lookup nat nat Nat.eqb (dedupe_first nat nat Nat.eqb [] (id_save nat nat [(1, 10)] 1 11)) 1 = Some 10.
+Proof. split; reflexivity. Qed.
+
